@@ -23,7 +23,7 @@ Without(f, D) == [x \in (DOMAIN f) \ D |-> f[x]]
 QErr == "PropertyGraphQueryException"
 
 EmptyCBM == [n |-> <<>>, e |-> {}]
-Init0 == [cbm |-> EmptyCBM, adm |-> <<>>, snaps |-> <<>>]
+Init0 == [cbm |-> EmptyCBM, adm |-> <<>>, snaps |-> <<>>, plug |-> FALSE]
 R(S, out, res) == [st |-> S, out |-> out, res |-> res]
 Ok(S) == R(S, "ok", [k |-> "none"])
 Fail(S, c) == R(S, c, [k |-> "none"])
@@ -75,8 +75,22 @@ LoadFamily(S, fam) == Ok([S EXCEPT !.adm = [i \in DOMAIN fam |-> [id |-> i, n |-
                                                    [props |-> fam[i].n[x].props, deleg |-> Fn(fam[i].n[x].deleg)]],
                                               e |-> {ToSet(ed) : ed \in ToSet(fam[i].e)}]]])
 
+\* what one contributing model delegated on an element (get_delegations): its details, or nothing
+GetDelegations(S, x, i, t) ==
+    IF x \notin DOMAIN S.cbm.n THEN Fail(S, QErr)
+    ELSE R(S, "ok", [k |-> "deleg", v |-> IF t \in DOMAIN S.cbm.n[x].deleg /\ i \in DOMAIN S.cbm.n[x].deleg[t]
+                                          THEN S.cbm.n[x].deleg[t][i] ELSE "none"])
+\* beyond the listed properties: the broker query model is produced by a registered plug-in, else it is a copy of the
+\* combined model under a new id (PluggableRegistry is a process-wide registry: register / unregister / lookup)
+GetBQM(S) == IF DOMAIN S.cbm.n = {} /\ ~S.plug THEN Fail(S, "Unmodelled")
+             ELSE R(S, "ok", [k |-> "bqm", via |-> IF S.plug THEN "plugin" ELSE "copy", same |-> TRUE])
+
 Apply(S, o) ==
     CASE o.op = "LoadFamily" -> LoadFamily(S, o.fam)
+      [] o.op = "GetDelegations" -> GetDelegations(S, o.x, o.i, o.t)
+      [] o.op = "Plug"       -> IF S.plug THEN Fail(S, "RuntimeError") ELSE Ok([S EXCEPT !.plug = TRUE])   \* one plug-in per kind
+      [] o.op = "Unplug"     -> Ok([S EXCEPT !.plug = FALSE])
+      [] o.op = "GetBQM"     -> GetBQM(S)
       [] o.op = "Merge"      -> Merge(S, o.i)
       [] o.op = "Unmerge"    -> Unmerge(S, o.i)
       [] o.op = "Snapshot"   -> Snapshot(S, o.k)
